@@ -1646,6 +1646,12 @@ func (p *parser) hoistSymbols(scope *js_ast.Scope) {
 				isSloppyModeBlockLevelFnStmt = true
 			}
 
+			// A variable declared directly in the body of a "with" statement (without
+			// a block) is affected in the same way as the hoisting past it below
+			if scope.Kind == js_ast.ScopeWith {
+				symbol.Flags |= ast.MustNotBeRenamed
+			}
+
 			// Check for collisions that would prevent to hoisting "var" symbols up to the enclosing function scope
 			s := scope.Parent
 			for {
@@ -1685,7 +1691,11 @@ func (p *parser) hoistSymbols(scope *js_ast.Scope) {
 					// Is this unbound (i.e. a global access) or also hoisted?
 					if existingSymbol.Kind == ast.SymbolUnbound || existingSymbol.Kind == ast.SymbolHoisted ||
 						(existingSymbol.Kind.IsFunction() && (s.Kind == js_ast.ScopeEntry || s.Kind == js_ast.ScopeFunctionBody)) {
-						// Silently merge this symbol into the existing symbol
+						// Silently merge this symbol into the existing symbol, which must keep
+						// its name too if this one was hoisted past a "with" statement
+						if symbol.Flags.Has(ast.MustNotBeRenamed) {
+							existingSymbol.Flags |= ast.MustNotBeRenamed
+						}
 						symbol.Link = existingMember.Ref
 						s.Members[symbol.OriginalName] = existingMember
 						continue nextMember
@@ -1707,7 +1717,11 @@ func (p *parser) hoistSymbols(scope *js_ast.Scope) {
 					}
 
 					// If this is a catch identifier, silently merge the existing symbol
-					// into this symbol but continue hoisting past this catch scope
+					// into this symbol but continue hoisting past this catch scope. The
+					// implicit "arguments" binding keeps its name.
+					if existingSymbol.Kind == ast.SymbolArguments {
+						symbol.Flags |= ast.MustNotBeRenamed
+					}
 					existingSymbol.Link = member.Ref
 					s.Members[symbol.OriginalName] = member
 				}
